@@ -1,5 +1,6 @@
 import CanvasProofs.Lemmas.C05
 import CanvasProofs.Lemmas.C05FixStart
+import CanvasProofs.Lemmas.C05Scale
 
 /-! # C05 — dashing cuts the path by arc length according to the pattern
 
@@ -15,7 +16,7 @@ variable {K : Type} [Field K] [LinearOrder K] [IsStrictOrderedRing K]
 /-- With `Epsilon = 0`, `Equal` is equality. -/
 theorem equal_exact (a b : K) : equal 0 a b = true ↔ a = b := equal_zero_iff a b
 
-/-- `dashStart` for EVERY offset (negative, beyond one or many periods — repaired by 8d5b47c): piece
+/-- `dashStart` for EVERY offset (negative, beyond one or many periods — repaired by e14817f): piece
 `i0` of the pattern starts at path position `pos0 ≤ 0`, the start of the path lies inside that piece
 (`-pos0 < d[i0]`), and the position has the right phase: `offset + pos0` is the start phase of a
 piece `J ≡ i0 (mod n)` up to `m` whole periods (`m = 0` for `offset ≥ 0`). `fmod` is `math.Mod`, of
@@ -129,7 +130,7 @@ theorem end_index_parity (n J0 m iEnd : Nat) (heven : n % 2 = 0) (hend : iEnd = 
     iEnd % 2 = (J0 + m) % 2 := by
   rw [hend]; exact Nat.mod_mod_of_dvd _ (Nat.dvd_of_mod_eq_zero heven)
 
-/-- d3f7b7f: when `SplitAt` makes only the first `made ≤ nt` of the `nt` requested cuts (the others
+/-- 8a98a46: when `SplitAt` makes only the first `made ≤ nt` of the `nt` requested cuts (the others
 lie beyond the end it measures), `Dash` selects among the `made+1` returned pieces with the pattern
 index stepped back by the cuts not made, `iEnd + nt - made`. The selection is still right on every
 stretch between two requested cuts: piece `k ≤ made` (up to the first cut not made, for `k = made`)
@@ -143,6 +144,23 @@ theorem kept_pieces_are_drawn_cuts_made (d : List K) (hnn : ∀ x ∈ d, 0 ≤ x
   have e : m - (nt - made) - made + k = m - nt + k := by omega
   apply kept_pieces_are_drawn d hnn heven offset pos0 J0 M (m - (nt - made)) made _ hal (by omega) (by omega) k hk x
   rw [e]; exact hx
+
+/-- Unit independence of the position list (exact arithmetic): with pattern, start position and
+subpath length multiplied by `s > 0`, `Dash` computes `s` times the same cut positions and the same
+final index. Together with `start_scale_invariant`: the bookkeeping of `Dash` does not depend on
+the unit of the coordinates, so `Dash(s·p, s·offset, s·d) = s·Dash(p, offset, d)` can only fail
+through `SplitAt`/`Length` or the absolute `Epsilon` — the harness checks that law on the real code
+for `s = 2^k`. -/
+theorem positions_scale_invariant (s : K) (hs : 0 < s) (d : List K) (length : K) (fuel i : Nat) (pos : K) :
+    positionsLoop 0 (d.map (s * ·)) (s * length) fuel i (s * pos) [] =
+      (positionsLoop 0 d length fuel i pos []).map (fun r => (r.1.map (s * ·), r.2)) := by
+  simpa using positionsLoop_scale s hs d length fuel i pos []
+
+/-- Unit independence of the loop of `dashStart`: same piece index, remaining offset times `s`. -/
+theorem start_scale_invariant (s : K) (hs : 0 < s) (d : List K) (fuel i : Nat) (off : K) :
+    dashStartLoop (d.map (s * ·)) fuel i (s * off) =
+      (dashStartLoop d fuel i off).map (fun r => (r.1, s * r.2)) :=
+  dashStartLoop_scale s hs d fuel i off
 
 /-- The pattern `Dash` walks over (after the odd-length doubling) has even length, as
 `kept_pieces_are_drawn` requires. -/
